@@ -28,6 +28,10 @@ def edit_string(s: str, rng: random.Random) -> str:
     return s
 
 
+def _shape(m):
+    return (m.label, None if m.children is None else tuple(_shape(c) for c in m.children))
+
+
 def _setting_tags(st):
     from engines.solversim import setting_tags
 
@@ -96,9 +100,21 @@ def run_api_op(kind, op, op_index, solver, sc, h, recog: Recognizer, world, reco
 
         ids = [20_000_000 + (op[2] % 1000) * 10_000]
         results = []
-        for _ in range(rng.randint(1, 3)):
-            m = derive_model(grammar, "<start>", rng, rng.randint(1, 5), ids)
-            if sum(1 for _ in _iter(m)) > 150:
+        # candidates: several derivations; different trees with the *same string*
+        # (ambiguous grammars) are checked first, one after the other
+        cands = []
+        for _ in range(10):
+            m = derive_model(grammar, "<start>", rng, rng.randint(1, 4), ids)
+            if sum(1 for _ in _iter(m)) <= 150:
+                cands.append(m)
+        by_yield: Dict[str, List[Any]] = {}
+        for m in cands:
+            group = by_yield.setdefault(tree_yield(m), [])
+            if all(_shape(m) != _shape(o) for o in group):
+                group.append(m)
+        ordered = [m for g in sorted(by_yield.values(), key=lambda g: -len(g)) for m in g]
+        for m in ordered[: rng.randint(2, 4)]:
+            if False:
                 continue
             if rng.random() < 0.5:
                 # the parser's representation of an epsilon expansion: no child at all
